@@ -1,7 +1,7 @@
 (* Properties/C09.v — JSON Patch operations conform to RFC 6902 and fail cleanly. *)
 From Coq Require Import List String Bool ZArith Arith.
 From YT Require Import Base.Str Base.KV Model.Doc Model.Dom Model.Pointer Model.Builder Model.Equals Model.Patch
-  Proofs.PatchProofs.
+  Proofs.PatchProofs Proofs.PatchLawsProofs.
 Import ListNotations.
 Local Open Scope list_scope.
 
@@ -51,6 +51,112 @@ Print Assumptions C09_remove_insert_id.
 Theorem C09_rfc_do_wf : forall o d d', wf d = true -> values_wf o = true -> rfc_do o d = Some d' -> wf d' = true.
 Proof. exact rfc_do_wf. Qed.
 Print Assumptions C09_rfc_do_wf.
+
+(* ---------- the reference itself, read declaratively (what RFC 6902 prescribes, as post-conditions
+   on RFC 6901 evaluation): where the value lands, what the parent looks like, what is untouched *)
+
+(* an update rewrites exactly the addressed node ... *)
+Theorem C09_upd_same : forall p f d d', upd p f d = Some d' ->
+  exists x x', rfc6901_eval p d = Some x /\ f x = Some x' /\ rfc6901_eval p d' = Some x'.
+Proof. exact upd_eval_same. Qed.
+Print Assumptions C09_upd_same.
+
+(* ... and leaves every pointer that parts ways with it unchanged (present or absent alike) *)
+Theorem C09_upd_frame : forall p q f d d', upd p f d = Some d' -> pdiv p q ->
+  rfc6901_eval q d' = rfc6901_eval q d.
+Proof. exact upd_eval_frame. Qed.
+Print Assumptions C09_upd_frame.
+
+(* a canonical index token is the decimal spelling of its index: two tokens never name one element *)
+Theorem C09_canon_index_spelling : forall t i, canon_index t = Some i -> t = nat2s i.
+Proof. exact canon_index_spelling. Qed.
+Print Assumptions C09_canon_index_spelling.
+
+(* add: the parent is rewritten by the one-level rule and the value is found at the target *)
+Theorem C09_add_spec : forall path v d d', path <> [] -> rfc_add path v d = Some d' ->
+  (exists par par', rfc6901_eval (parent_of path) d = Some par /\ rfc_add_at (last_of path) v par = Some par' /\
+                    rfc6901_eval (parent_of path) d' = Some par') /\
+  rfc6901_eval path d' = Some v.
+Proof. exact rfc_add_spec. Qed.
+Print Assumptions C09_add_spec.
+
+Theorem C09_add_frame : forall path v d d' q, rfc_add path v d = Some d' -> pdiv (parent_of path) q ->
+  rfc6901_eval q d' = rfc6901_eval q d.
+Proof. exact rfc_add_frame. Qed.
+Print Assumptions C09_add_frame.
+
+Theorem C09_add_member_frame : forall path v d d' kvs t rest, path <> [] ->
+  rfc_add path v d = Some d' -> rfc6901_eval (parent_of path) d = Some (Con kvs) -> t <> last_of path ->
+  rfc6901_eval (parent_of path ++ t :: rest) d' = rfc6901_eval (parent_of path ++ t :: rest) d.
+Proof. exact rfc_add_member_frame. Qed.
+Print Assumptions C09_add_member_frame.
+
+(* array parents: the element list afterwards IS the insertion (C09_insert_shift says where each
+   old element went) *)
+Theorem C09_add_list_shift : forall path v d d' xs i, path <> [] ->
+  rfc_add path v d = Some d' -> rfc6901_eval (parent_of path) d = Some (Lst xs) -> canon_index (last_of path) = Some i ->
+  i <= List.length xs /\ rfc6901_eval (parent_of path) d' = Some (Lst (insert_at xs i v)).
+Proof. exact rfc_add_list_shift. Qed.
+Print Assumptions C09_add_list_shift.
+
+(* add fails exactly when the parent is missing or refuses the token (scalar parent, index out
+   of range, non-index token on an array) *)
+Theorem C09_add_fails : forall path v d, rfc_add path v d = None <->
+  (rfc6901_eval (parent_of path) d = None \/
+   exists par, rfc6901_eval (parent_of path) d = Some par /\ rfc_add_at (last_of path) v par = None).
+Proof. exact rfc_add_fails. Qed.
+Print Assumptions C09_add_fails.
+
+(* remove *)
+Theorem C09_remove_member_gone : forall path d d' kvs, path <> [] -> sorted_keys kvs = true ->
+  rfc_remove path d = Some d' -> rfc6901_eval (parent_of path) d = Some (Con kvs) ->
+  rfc6901_eval path d' = None /\ rfc6901_eval path d <> None.
+Proof. exact rfc_remove_member_gone. Qed.
+Print Assumptions C09_remove_member_gone.
+
+Theorem C09_remove_list_shift : forall path d d' xs i,
+  rfc_remove path d = Some d' -> rfc6901_eval (parent_of path) d = Some (Lst xs) -> canon_index (last_of path) = Some i ->
+  i < List.length xs /\ rfc6901_eval (parent_of path) d' = Some (Lst (remove_idx xs i)).
+Proof. exact rfc_remove_list_shift. Qed.
+Print Assumptions C09_remove_list_shift.
+
+Theorem C09_remove_frame : forall path d d' q, rfc_remove path d = Some d' -> pdiv (parent_of path) q ->
+  rfc6901_eval q d' = rfc6901_eval q d.
+Proof. exact rfc_remove_frame. Qed.
+Print Assumptions C09_remove_frame.
+
+(* replace: the target must exist, holds the value afterwards, nothing else moves *)
+Theorem C09_replace_spec : forall path v d d', rfc_do (PReplace path (Some v)) d = Some d' ->
+  rfc6901_eval path d <> None /\ rfc6901_eval path d' = Some v /\
+  forall q, pdiv path q -> rfc6901_eval q d' = rfc6901_eval q d.
+Proof. exact rfc_replace_spec. Qed.
+Print Assumptions C09_replace_spec.
+
+(* copy = add of the value found at from; move = remove at from, then add, refused into an own
+   descendant; in both the value found at from is found at path afterwards *)
+Theorem C09_copy_spec : forall from path d d', path <> [] -> rfc_do (PCopy (Some from) path) d = Some d' ->
+  exists v, rfc6901_eval from d = Some v /\ rfc6901_eval path d' = Some v /\ rfc_add path v d = Some d'.
+Proof. exact rfc_copy_spec. Qed.
+Print Assumptions C09_copy_spec.
+
+Theorem C09_move_spec : forall from path d d', path <> [] -> rfc_do (PMove (Some from) path) d = Some d' ->
+  exists v d1, rfc6901_eval from d = Some v /\ proper_prefix from path = false /\
+               rfc_remove from d = Some d1 /\ rfc_add path v d1 = Some d' /\ rfc6901_eval path d' = Some v.
+Proof. exact rfc_move_spec. Qed.
+Print Assumptions C09_move_spec.
+
+(* test succeeds exactly when the target holds that very value, and changes nothing *)
+Theorem C09_test_spec : forall path v d d', rfc_do (PTest path (Some v)) d = Some d' <->
+  d' = d /\ rfc6901_eval path d = Some v.
+Proof. exact rfc_test_spec. Qed.
+Print Assumptions C09_test_spec.
+
+Theorem C09_missing_operand : forall d,
+  (forall p, rfc_do (PAdd p None) d = None) /\ (forall p, rfc_do (PReplace p None) d = None) /\
+  (forall p, rfc_do (PTest p None) d = None) /\ (forall p, rfc_do (PMove None p) d = None) /\
+  (forall p, rfc_do (PCopy None p) d = None).
+Proof. exact rfc_missing_operand. Qed.
+Print Assumptions C09_missing_operand.
 
 (* "a later edit inside a copied subtree never shows through at the source" is a statement about
    sharing; a pure model has none.  It is decided by copy-then-edit histories on the Go side. *)
